@@ -137,7 +137,9 @@ def build_sampler(case):
 
         class Stub(MLSurrogateSampler):
             def __init__(self):
-                super().__init__(bs, random_state=seed, candidate_pool_size=o["pool_size"],
+                # the constructor rejects candidate_pool_size < batch_size (b8551a2); an overriding sample_candidates may
+                # still return a smaller pool, which sample_batch must handle as the model says (min k |pool| rows)
+                super().__init__(bs, random_state=seed, candidate_pool_size=max(o["pool_size"], bs),
                                  max_deduplication_passes=o.get("passes", 5))
                 self.ncall = 0
 
